@@ -27,7 +27,13 @@ RULE = ("cases: (a) byte strings as .json/.yaml/.yml files, (b) arbitrary JSON v
         "pointer escapes, media-type parameters, 4000 characters) x every string leaf and every name-carrying key (81 slots) of a "
         "carrier document - what makes a backtracking pattern or a character loop run away, (g) a complete value matrix (2 820 "
         "documents): the keywords whose value the document validator leaves untyped (default, example, enum members, const) x 22 "
-        "schema kinds x 20 junk values of every JSON type x position (model property, component, query parameter). Non-trivial = input parsed to a mapping holding "
+        "schema kinds x 20 junk values of every JSON type x position (model property, component, query parameter), (h) 76 one-problem "
+        "documents (8 operation-level and 14 schema-level problems; the broken operation alone / under one or two tags / next to a healthy "
+        "operation of another tag; the broken schema used or unused): the problem must come back as a diagnostic and as exit status 1 under "
+        "--fail-on-warning, (i) 13 command lines (both / no source, unknown encoding, unreadable or ill-typed configuration, missing path, "
+        "directory as path, refused / malformed URL, YAML configuration, unknown metadata flavour): exit status, "
+        "no traceback, nothing written, (k) 9 inputs nested beyond the recursion limit (JSON / YAML, 1 500-100 000 levels), each run through "
+        "the command line in a fresh interpreter: the process must survive and exit 1. Non-trivial = input parsed to a mapping holding "
         "openapi+info+paths and either produced >=1 diagnostic or reached rendering; distinct = hash of the input.")
 ASSUMPTIONS = [
     "post-hooks are disabled, so an ERROR-level diagnostic always means the document itself was rejected",
@@ -222,6 +228,9 @@ STRESS = [
     "/" * 64, "a/" * 32, "_" * 64, "-" * 64, " " * 64 + "x", "a." * 32, "A" * 64, "aB" * 32, "9" * 64, "#/" * 32,
     "#/components/schemas/" + "a/" * 32, "~1" * 32, "%41" * 24, "application/" + "a+" * 32 + "json", "a;" * 32,
     "a/b;" + "c=d;" * 24, "\\" * 48, "$" * 48, "\u00e9" * 48, "\u00df" * 40, "\u0130" * 40, "a b " * 24, "1.2." * 24, "x" * 4000,
+    # short texts that a library below the generator refuses: a lone surrogate (cannot be encoded when files are written), reference
+    # texts urlparse rejects
+    "\ud800", "a\udfffb", "//[", "http://[::1", "#/components/schemas/[",
 ]
 KEY_SLOT_PARENTS = ("paths", "schemas", "properties", "content", "responses", "parameters", "requestBodies", "securitySchemes")
 
@@ -404,12 +413,174 @@ def _matrix_doc(case):
 ATHERIS_RUNS = int(os.environ.get("VERIF_C06_ATHERIS_RUNS", "40000"))
 
 
+# ------------------------------------------------------------------------------------------------ (h) catalogue of single problems
+def problem_cases():
+    """One-problem documents: the problem must come back as a diagnostic (and as exit status 1 with --fail-on-warning), whether
+    or not anything else in the document (its tag, its only operation) survives."""
+    from . import c08
+
+    out = []
+    for fault in c08.OP_FAULTS:
+        for tags in ([], ["solo"], ["solo", "duo"]):
+            for sibling in (False, True):
+                out.append({"kind": "problem", "where": "op", "fault": fault, "tags": tags, "sibling": sibling})
+    for fault in sorted(c08.SCHEMA_FAULTS):
+        for used in (False, True):
+            out.append({"kind": "problem", "where": "schema", "fault": fault, "used": used})
+    return out
+
+
+def _problem_doc(case):
+    import copy
+
+    from . import c08
+
+    doc = {"openapi": "3.0.3", "info": {"title": "Problem API", "version": "1"}, "paths": {},
+           "components": {"schemas": {"Fine": {"type": "object", "properties": {"a": {"type": "string"}}}}}}
+    if case["where"] == "op":
+        o = {"operationId": "brokenOp", "responses": {"200": {"description": "ok"}}}
+        if case["tags"]:
+            o["tags"] = list(case["tags"])
+        path = "/broken"
+        f = case["fault"]
+        if f == "optional_path_param":
+            path = "/broken/{zzopt}"
+            o["parameters"] = [{"name": "zzopt", "in": "path", "schema": {"type": "string"}}]
+        elif f == "duplicate_param":
+            o["parameters"] = [{"name": "zzdup", "in": "query", "schema": {"type": "string"}}, {"name": "zzdup", "in": "query", "schema": {"type": "integer"}}]
+        elif f == "unparseable_body":
+            o["requestBody"] = {"content": {"application/json": {"schema": {"type": "array"}}}}
+        elif f == "unsupported_body_only":
+            o["requestBody"] = {"content": {"application/xml": {"schema": {"type": "string"}}}}
+        elif f == "invalid_status":
+            o["responses"]["abc"] = {"description": "bad"}
+        elif f == "response_dangling_ref":
+            o["responses"]["418"] = {"description": "bad", "content": {"application/json": {"schema": {"$ref": "#/components/schemas/ZzNope"}}}}
+        elif f == "param_bad_schema":
+            o["parameters"] = [{"name": "zzBadParam", "in": "query", "schema": {"type": "array"}}]
+        elif f == "param_dangling_ref":
+            o["parameters"] = [{"$ref": "#/components/parameters/ZzNope"}]
+        doc["paths"][path] = {"post": o}
+        if case["sibling"]:
+            doc["paths"]["/fine"] = {"get": {"operationId": "fineOp", "tags": ["other"], "responses": {"200": {"description": "ok"}}}}
+    else:
+        doc["components"]["schemas"]["Broken"] = {"type": "object", "properties": {"bad": copy.deepcopy(c08.SCHEMA_FAULTS[case["fault"]])}}
+        resp = {"200": {"description": "ok"}}
+        if case["used"]:
+            resp["200"]["content"] = {"application/json": {"schema": {"$ref": "#/components/schemas/Broken"}}}
+        doc["paths"]["/fine"] = {"get": {"operationId": "fineOp", "responses": resp}}
+    return doc
+
+
+# ------------------------------------------------------------------------------------------------ (i) command lines
+CLI_SHAPES = ["both_sources", "no_source", "unknown_encoding", "config_not_json", "config_wrong_types", "config_missing", "path_missing",
+              "path_is_directory", "url_refused", "url_malformed", "url_not_a_url", "config_yaml", "meta_unknown"]
+
+
+def _run_cli_shape(case, ctx):
+    d = env.fresh_dir("clishape")
+    try:
+        good = os.path.join(d, "ok.json")
+        with open(good, "w") as f:
+            json.dump({"openapi": "3.0.3", "info": {"title": "t", "version": "1"}, "paths": {}}, f)
+        cfg = os.path.join(d, "cfg.json")
+        with open(cfg, "w") as f:
+            f.write('{"post_hooks": []}')
+        out = os.path.join(d, "o")
+        sh = case["shape"]
+        base = ["generate", "--output-path", out]
+        extra, want_zero = {
+            "both_sources": (["--path", good, "--url", "http://127.0.0.1:9/x.json", "--config", cfg], False),
+            "no_source": (["--config", cfg], False),
+            "unknown_encoding": (["--path", good, "--file-encoding", "klingon", "--config", cfg], False),
+            "config_not_json": (["--path", good, "--config", _write(d, "bad.json", '{"post_hooks": ')], False),
+            "config_wrong_types": (["--path", good, "--config", _write(d, "bad.yaml", "class_overrides: [1, 2]\n")], False),
+            "config_missing": (["--path", good, "--config", os.path.join(d, "nope.json")], False),
+            "path_missing": (["--path", os.path.join(d, "nope.json"), "--config", cfg], False),
+            "path_is_directory": (["--path", d, "--config", cfg], False),
+            "url_refused": (["--url", "http://127.0.0.1:9/x.json", "--config", cfg], False),
+            "url_malformed": (["--url", "http://[::1/x.json", "--config", cfg], False),
+            "url_not_a_url": (["--url", "not a url", "--config", cfg], False),
+            "config_yaml": (["--path", good, "--config", _write(d, "c.yaml", "post_hooks: []\n")], True),
+            "meta_unknown": (["--path", good, "--meta", "bogus", "--config", cfg], False),
+        }[sh]
+        code, so, se, exc = sut.cli(base + extra)
+        ctx.evals()
+        ctx.label("cli_shape:" + sh)
+        ctx.nontrivial(case)
+        text = (se or "") + (so or "")
+        if exc is not None:
+            ctx.violation("cli.raises", {**sut.exc_site(exc), "shape": sh}, repr(exc)[:300])
+        elif "Traceback (most recent call last)" in text:
+            ctx.violation("cli.traceback", {"shape": sh}, text[-400:])
+        elif (code == 0) != want_zero:
+            ctx.violation("cli.exit_code", {"shape": sh, "got": code}, text[-300:])
+        if not want_zero and os.path.exists(out):
+            ctx.violation("rejected.nothing_written", {"shape": sh, "via": "cli"})
+    finally:
+        env.rm(d)
+
+
+def _write(d, name, text):
+    p = os.path.join(d, name)
+    with open(p, "w") as f:
+        f.write(text)
+    return p
+
+
+# ------------------------------------------------------------------------------------------------ (k) nesting beyond the recursion limit
+DEEP = [("json_arrays", ".json", 100000), ("json_objects", ".json", 50000), ("yaml_flow_arrays", ".yaml", 3000), ("yaml_flow_arrays", ".yaml", 40000),
+        ("yaml_flow_maps", ".yaml", 3000), ("yaml_flow_maps", ".yaml", 40000), ("yaml_block", ".yaml", 1500), ("yaml_dashes", ".yaml", 3000),
+        ("json_arrays", ".yaml", 40000)]
+
+
+def _run_deep(case, ctx):
+    """Run alone in a fresh interpreter through the command line: a parser that recurses on the C stack kills the process."""
+    shape, suffix, n = case["shape"], case["suffix"], case["n"]
+    raw = {"json_arrays": b"[" * n, "json_objects": b'{"a":' * n, "yaml_flow_arrays": b"[" * n, "yaml_flow_maps": b"{a: " * n,
+           "yaml_block": b"".join(b" " * i + b"a:\n" for i in range(n)), "yaml_dashes": b"- " * n}[shape]
+    d = env.fresh_dir("deep")
+    try:
+        src = os.path.join(d, "doc" + suffix)
+        with open(src, "wb") as f:
+            f.write(raw)
+        cfg = _write(d, "cfg.json", '{"post_hooks": []}')
+        code = ("import sys; sys.path.insert(0, %r); from openapi_python_client.cli import app; app()" % env.REPO)
+        ctx.evals()
+        ctx.label("deep:" + shape)
+        ctx.nontrivial(case)
+        try:
+            r = subprocess.run([sys.executable, "-c", code, "generate", "--path", src, "--output-path", os.path.join(d, "o"), "--config", cfg],
+                               capture_output=True, timeout=150, cwd=d)
+        except subprocess.TimeoutExpired:
+            ctx.violation("terminates", {"stage": "deep", "shape": shape}, f"{shape} x {n}: no result after 150 s")
+            return
+        text = (r.stderr or b"").decode("utf-8", "replace") + (r.stdout or b"").decode("utf-8", "replace")
+        fmt = "yaml" if suffix != ".json" else "json"
+        if r.returncode < 0:
+            ctx.violation("process.survives", {"signal": -r.returncode, "format": fmt}, f"{shape} x {n}: killed by signal {-r.returncode}")
+        elif "Traceback (most recent call last)" in text:
+            last = [ln for ln in text.strip().splitlines() if ln.strip()][-1]
+            ctx.violation("cli.traceback", {"shape": shape, "format": fmt, "exc": last.split(":")[0][:40]}, text[-500:])
+        elif r.returncode != 1:
+            ctx.violation("cli.exit_code", {"shape": shape, "got": r.returncode}, text[-300:])
+    finally:
+        env.rm(d)
+
+
+import re as _re
+
+_SURROGATE_ESCAPE = _re.compile(rb"\\u[dD][89a-fA-F][0-9a-fA-F]{2}(?!\\u[dD][c-fC-F])|(?<!\\u[dD][89abAB][0-9a-fA-F]{2})\\u[dD][c-fC-F][0-9a-fA-F]{2}")
+
+
 def case_timeout(case):
     return ATHERIS_CASE_TIMEOUT if isinstance(case, dict) and case.get("kind") == "atheris" else CASE_TIMEOUT
 
 
 def sweep(tier):
-    cases = cyclic_docs() + collision_docs() + stress_cases() + matrix_cases()
+    cases = cyclic_docs() + collision_docs() + stress_cases() + matrix_cases() + problem_cases()
+    cases += [{"kind": "cli_shape", "shape": sh} for sh in CLI_SHAPES]
+    cases += [{"kind": "deep", "shape": a, "suffix": b, "n": c} for a, b, c in DEEP]
     if tier == "thorough":
         # coverage-guided campaigns (atheris/libFuzzer on the loader + parser): 8 from an empty corpus, 8 from a seeded one
         for k in range(16):
@@ -496,6 +667,16 @@ def _source(case) -> tuple[str, object]:
 def run(case, ctx):
     if case.get("kind") == "atheris":
         return _run_atheris(case, ctx)
+    if case.get("kind") == "cli_shape":
+        return _run_cli_shape(case, ctx)
+    if case.get("kind") == "deep":
+        return _run_deep(case, ctx)
+    expect_diag = False
+    if case.get("kind") == "problem":
+        ctx.label("problem:" + case["where"])
+        expect_diag = True
+        case = {"kind": "doc", "doc": _problem_doc(case), "yaml": False, "cli": True, "fow": True, "meta": "none",
+                "problem": [case["where"], case["fault"], case.get("tags"), case.get("sibling"), case.get("used")]}
     if case.get("kind") == "stress":
         ctx.label("stress_string")
         case = {"kind": "doc", "doc": _stress_doc(case), "yaml": False, "cli": False, "fow": False, "meta": "none", "stress": [case["slot"], case["string"]]}
@@ -512,7 +693,16 @@ def run(case, ctx):
     try:
         if res.exc is not None:
             ctx.label("api:crash")
-            ctx.violation("api.raises", res.exc_site, f"{res.exc!r}")
+            site = dict(res.exc_site)
+            if isinstance(res.exc, UnicodeError):
+                # which input made it unencodable: a lone surrogate in the document's text is the only way JSON can carry one
+                try:
+                    with open(src, "rb") as fh:
+                        head = fh.read()
+                    site = {"exc": type(res.exc).__name__, "lone_surrogate_in_document": bool(_SURROGATE_ESCAPE.search(head))}
+                except OSError:
+                    pass
+            ctx.violation("api.raises", site, f"{res.exc!r}")
             ctx.nontrivial(case)
             return
         errs = res.errors
@@ -522,6 +712,8 @@ def run(case, ctx):
         for e in errs:
             if not (getattr(e, "header", None) or getattr(e, "detail", None)):
                 ctx.violation("api.diagnostic_has_text", {"type": type(e).__name__})
+        if expect_diag and not errs:
+            ctx.violation("problem.reported", {"where": case["problem"][0], "fault": case["problem"][1]}, f"no diagnostic for {case['problem']}")
         wrote = os.path.exists(res.out)
         if res.has_error_level:
             ctx.label("rejected")
